@@ -86,7 +86,13 @@ def write_errors_to_yaml(container, yaml_doc):
                 else:
                     _yaml_section[-1]["matrix"] = _err_obj.cov_mat  # .tolist()
             elif _mtype == "correlation":
-                _yaml_section[-1]["matrix"] = _err_obj.cor_mat  # .tolist()
+                if _is_relative:
+                    # the correlations of a relative error are those of the relative covariance matrix
+                    # (the absolute one carries the signs/zeros of the reference values)
+                    _ = _err_obj.cov_mat_rel
+                    _yaml_section[-1]["matrix"] = _err_obj._cov_mat_rel.cor_mat
+                else:
+                    _yaml_section[-1]["matrix"] = _err_obj.cor_mat  # .tolist()
                 _yaml_section[-1]["error_value"] = _err_val
             else:
                 raise TypeError("Unknown error matrix type '{}'. " "Valid: 'correlation' or 'covariance'.")
